@@ -81,6 +81,15 @@ def _judge_listing(ctx, ws, text, origin, force_history=False):
                          f"stream is not the concatenation of 'addr::mnemonic,op,...,|' records of the {len(want)} instructions the parser produced: "
                          f"{s[:120]!r} vs {stream.encode(want)[:120]!r}")
         return
+    # (1a) the text handed to the matcher does not depend on the search mode (all-matches builds the same stream as first-match)
+    ra_ = real.match(ws.write("_stream_rule.yaml", "pattern:\n  - zzzzzz\n"), p, ret="stream", search="all")
+    ctx.ran()
+    ctx.event("streams_compared_across_search_modes")
+    if ra_[0] != "ok" or ra_[1] != s:
+        got = ra_[1] if ra_[0] == "ok" else str(ra_[1:])
+        ctx.disagreement({"origin": origin, "listing": text[:100000]},
+                         f"all-matches mode builds a stream of {got.count('|')} records, first-match mode one of {s.count('|')} for the same listing")
+        return
     # (1b) the same matcher object asked a second time hands the matcher the same text (nothing accumulates)
     if ctx.rng.random() < 0.3:
         rt = real.match_twice(ws.write("_stream_rule.yaml", "pattern:\n  - zzzzzz\n"), p, ret="stream")
